@@ -50,6 +50,32 @@ def gymRun (S : SimIface σ α ω ι) (k : MKind) (ag : Aid) :
     let r := gymCall S k ag m c
     (r.1, r.2.1) :: gymRun S k ag r.2.2 cs
 
+/-! ## GymABS (a gym environment used as an AgentBasedSimulation) -/
+
+/-- an arbitrary gymnasium environment as a state machine -/
+structure GymEnv (ε α ω ι : Type) where
+  reset : ε → (ω × ι) × ε
+  step  : ε → α → (ω × Int × Bool × Bool × ι) × ε
+
+/-- every field `GymABS` stores (`_obs`, `_reward`, `_done`, `_info`) plus the environment -/
+structure GymABSSt (ε ω ι : Type) where
+  env    : ε
+  obs    : Option ω := none
+  reward : Option Int := none
+  done   : Option Bool := none
+  info   : Option ι := none
+
+/-- `GymABS.reset` (after repair F4 it also clears the stored reward and done flag) -/
+def gymabsReset {ε : Type} (E : GymEnv ε α ω ι) (s : GymABSSt ε ω ι) : GymABSSt ε ω ι :=
+  let r := E.reset s.env
+  { env := r.2, obs := some r.1.1, info := some r.1.2, reward := none, done := none }
+
+/-- `GymABS.step` -/
+def gymabsStep {ε : Type} (E : GymEnv ε α ω ι) (s : GymABSSt ε ω ι) (a : α) : GymABSSt ε ω ι :=
+  let r := E.step s.env a
+  { env := r.2, obs := some r.1.1, reward := some r.1.2.1, done := some (r.1.2.2.1 || r.1.2.2.2.1),
+    info := some r.1.2.2.2.2 }
+
 /-! ## OpenSpiel -/
 
 inductive StepType where
